@@ -586,8 +586,14 @@ Proof.
     unfold b in H. rewrite (Rel_lens ms ss HR) in *. exact H.
 Qed.
 
-Lemma small_prod n dt : small n -> dt_ok dt -> - (DTMAX * ARG) < n * dt < BMAX.
-Proof. intros Hn Hdt. pose proof (mul_small_bound _ _ Hdt Hn). consts_in. lia. Qed.
+(* the allocation requests the library rejects: negative counts and byte sizes above max_bytes *)
+Definition rej (n dt : Z) : bool := (n <? 0) || (max_bytes <? n * dt).
+
+Lemma rej_false n dt : dt_ok dt -> rej n dt = false -> 0 <= n /\ 0 <= n * dt < BMAX.
+Proof.
+  unfold rej, dt_ok. intros Hdt E. apply orb_false_iff in E as [E1 E2]. apply Z.ltb_ge in E1, E2.
+  consts_in. nia.
+Qed.
 
 Lemma good_alloc_plain ms ss o d n dt w i content g :
   wf ms -> Rel ms ss -> 0 <= n < BMAX -> dt_ok dt -> slot_of o = d ->
@@ -604,13 +610,13 @@ Proof.
   destruct i as [| seed |]; [subst content; reflexivity | subst content; reflexivity | destruct Hi].
 Qed.
 
-Lemma good_OMalloc ms ss d n dt : wf ms -> Rel ms ss -> small n -> dt_ok dt -> good ms ss (OMalloc d n dt).
+Lemma good_OMalloc ms ss d n dt : wf ms -> Rel ms ss -> dt_ok dt -> good ms ss (OMalloc d n dt).
 Proof.
-  intros Hwf HR Hn Hdt. pose proof (small_prod n dt Hn Hdt) as B.
+  intros Hwf HR Hdt.
   assert (Ef : frontend fixed ms (OMalloc d n dt) =
-               if n =? 0 then Ret (PSetHandle None) else if n <? 0 then Throw else Ret (PAlloc (n * dt) dt false INone)).
-  { cbn [frontend]. rewrite device_malloc_bytes_char by assumption.
-    destruct (n =? 0); [reflexivity |]. destruct (n <? 0); reflexivity. }
+               if n =? 0 then Ret (PSetHandle None) else if rej n dt then Throw else Ret (PAlloc (n * dt) dt false INone)).
+  { cbn [frontend]. rewrite device_malloc_bytes_char by assumption. fold (rej n dt).
+    destruct (n =? 0); [reflexivity |]. destruct (rej n dt); reflexivity. }
   destruct (Z.eqb_spec n 0) as [E0 | E0].
   - apply (good_intro _ _ _ (sethandle ms d None) (with_handle ss d (option_map m2v None)) OK).
     + apply (step_ret _ _ _ _ Ef). reflexivity.
@@ -618,26 +624,27 @@ Proof.
     + apply Rel_sethandle; assumption.
     + apply wf_sethandle; auto. intros m E; discriminate.
     + intros [].
-  - destruct (Z.ltb_spec n 0) as [Hneg | Hpos].
+  - destruct (rej n dt) eqn:Er.
     + apply (good_intro _ _ _ ms ss ERR); auto.
       * apply step_throw. exact Ef.
-      * cbn [s_step]. destruct (Z.eqb_spec n 0); [lia |]. destruct (Z.ltb_spec n 0); [reflexivity | lia].
-    + assert (0 <= n * dt) by (unfold dt_ok in Hdt; nia).
+      * cbn [s_step]. change alloc_limit with max_bytes. fold (rej n dt).
+        destruct (Z.eqb_spec n 0); [lia |]. rewrite Er. reflexivity.
+    + destruct (rej_false n dt Hdt Er) as (Hn0 & Hb).
       apply (good_alloc_plain ms ss _ d (n * dt) dt false INone (repeat undef (Z.to_nat (n * dt))) (fun _ => undef)); auto.
-      * lia.
       * apply zlen_repeat; lia.
       * intros k Hk. apply nth_repeat_lt. lia.
-      * cbn [s_step]. destruct (Z.eqb_spec n 0); [lia |]. destruct (Z.ltb_spec n 0); [lia | reflexivity].
+      * cbn [s_step]. change alloc_limit with max_bytes. fold (rej n dt).
+        destruct (Z.eqb_spec n 0); [lia |]. rewrite Er. reflexivity.
 Qed.
 
-Lemma good_OMallocH ms ss d n dt seed uhp : wf ms -> Rel ms ss -> small n -> dt_ok dt ->
+Lemma good_OMallocH ms ss d n dt seed uhp : wf ms -> Rel ms ss -> dt_ok dt ->
   good ms ss (OMallocH d n dt seed uhp).
 Proof.
-  intros Hwf HR Hn Hdt. pose proof (small_prod n dt Hn Hdt) as B.
+  intros Hwf HR Hdt.
   assert (Ef : frontend fixed ms (OMallocH d n dt seed uhp) =
-               if n =? 0 then Ret (PSetHandle None) else if n <? 0 then Throw else Ret (PAlloc (n * dt) dt uhp (IHost seed))).
-  { cbn [frontend]. rewrite device_malloc_bytes_char by assumption.
-    destruct (n =? 0); [reflexivity |]. destruct (n <? 0); reflexivity. }
+               if n =? 0 then Ret (PSetHandle None) else if rej n dt then Throw else Ret (PAlloc (n * dt) dt uhp (IHost seed))).
+  { cbn [frontend]. rewrite device_malloc_bytes_char by assumption. fold (rej n dt).
+    destruct (n =? 0); [reflexivity |]. destruct (rej n dt); reflexivity. }
   destruct (Z.eqb_spec n 0) as [E0 | E0].
   - apply (good_intro _ _ _ (sethandle ms d None) (with_handle ss d (option_map m2v None)) OK).
     + apply (step_ret _ _ _ _ Ef). reflexivity.
@@ -645,34 +652,34 @@ Proof.
     + apply Rel_sethandle; assumption.
     + apply wf_sethandle; auto. intros m E; discriminate.
     + intros [].
-  - destruct (Z.ltb_spec n 0) as [Hneg | Hpos].
+  - destruct (rej n dt) eqn:Er.
     + apply (good_intro _ _ _ ms ss ERR); auto.
       * apply step_throw. exact Ef.
-      * cbn [s_step]. destruct (Z.eqb_spec n 0); [lia |]. destruct (Z.ltb_spec n 0); [reflexivity | lia].
-    + assert (0 <= n * dt) by (unfold dt_ok in Hdt; nia).
+      * cbn [s_step]. change alloc_limit with max_bytes. fold (rej n dt).
+        destruct (Z.eqb_spec n 0); [lia |]. rewrite Er. reflexivity.
+    + destruct (rej_false n dt Hdt Er) as (Hn0 & Hb).
       apply (good_alloc_plain ms ss _ d (n * dt) dt uhp (IHost seed) (patl seed (n * dt)) (pat seed)); auto.
-      * lia.
       * apply zlen_patl; lia.
       * intros k Hk. apply nth_patl. lia.
-      * cbn [s_step]. destruct (Z.eqb_spec n 0); [lia |]. destruct (Z.ltb_spec n 0); [lia | reflexivity].
+      * cbn [s_step]. change alloc_limit with max_bytes. fold (rej n dt).
+        destruct (Z.eqb_spec n 0); [lia |]. rewrite Er. reflexivity.
 Qed.
 
-Lemma good_OWrap ms ss d n dt seed : wf ms -> Rel ms ss -> small n -> dt_ok dt -> good ms ss (OWrap d n dt seed).
+Lemma good_OWrap ms ss d n dt seed : wf ms -> Rel ms ss -> dt_ok dt -> good ms ss (OWrap d n dt seed).
 Proof.
-  intros Hwf HR Hn Hdt. pose proof (small_prod n dt Hn Hdt) as B.
+  intros Hwf HR Hdt.
   assert (Ef : frontend fixed ms (OWrap d n dt seed) =
-               if n <? 0 then Throw else Ret (PAlloc (n * dt) dt true (IHost seed))).
+               if rej n dt then Throw else Ret (PAlloc (n * dt) dt true (IHost seed))).
   { cbn [frontend]. apply device_wrap_char; assumption. }
-  destruct (Z.ltb_spec n 0) as [Hneg | Hpos].
+  destruct (rej n dt) eqn:Er.
   - apply (good_intro _ _ _ ms ss ERR); auto.
     + apply step_throw. exact Ef.
-    + cbn [s_step]. destruct (Z.ltb_spec n 0); [reflexivity | lia].
-  - assert (0 <= n * dt) by (unfold dt_ok in Hdt; nia).
+    + cbn [s_step]. change alloc_limit with max_bytes. fold (rej n dt). rewrite Er. reflexivity.
+  - destruct (rej_false n dt Hdt Er) as (Hn0 & Hb).
     apply (good_alloc_plain ms ss _ d (n * dt) dt true (IHost seed) (patl seed (n * dt)) (pat seed)); auto.
-    + lia.
     + apply zlen_patl; lia.
     + intros k Hk. apply nth_patl. lia.
-    + cbn [s_step]. destruct (Z.ltb_spec n 0); [lia | reflexivity].
+    + cbn [s_step]. change alloc_limit with max_bytes. fold (rej n dt). rewrite Er. reflexivity.
 Qed.
 
 Lemma good_alloc_copy ms ss o d n dt src :
@@ -688,12 +695,12 @@ Proof.
   unfold alloc_state in E. rewrite E. reflexivity.
 Qed.
 
-Lemma good_OMallocM ms ss d n dt sidx : wf ms -> Rel ms ss -> small n -> dt_ok dt -> good ms ss (OMallocM d n dt sidx).
+Lemma good_OMallocM ms ss d n dt sidx : wf ms -> Rel ms ss -> dt_ok dt -> good ms ss (OMallocM d n dt sidx).
 Proof.
-  intros Hwf HR Hn Hdt. pose proof (small_prod n dt Hn Hdt) as B.
+  intros Hwf HR Hdt.
   pose proof (spec_handle ms ss sidx HR) as EH.
   assert (Ef : frontend fixed ms (OMallocM d n dt sidx) =
-               if n =? 0 then Ret (PSetHandle None) else if n <? 0 then Throw else
+               if n =? 0 then Ret (PSetHandle None) else if rej n dt then Throw else
                match geth (hs ms) sidx with
                | None => Ret (PAlloc (n * dt) dt false INone)
                | Some sm => if n * dt <=? msize sm then Ret (PAlloc (n * dt) dt false (IMem sm (n * dt) 0 0)) else Throw
@@ -706,26 +713,29 @@ Proof.
     + apply Rel_sethandle; assumption.
     + apply wf_sethandle; auto. intros m E; discriminate.
     + intros [].
-  - destruct (Z.ltb_spec n 0) as [Hneg | Hpos].
+  - destruct (rej n dt) eqn:Er.
     + apply (good_intro _ _ _ ms ss ERR); auto.
       * apply step_throw. exact Ef.
-      * cbn [s_step]. destruct (Z.eqb_spec n 0); [lia |]. destruct (Z.ltb_spec n 0); [reflexivity | lia].
-    + assert (0 <= n * dt) by (unfold dt_ok in Hdt; nia).
+      * cbn [s_step]. change alloc_limit with max_bytes. fold (rej n dt).
+        destruct (Z.eqb_spec n 0); [lia |]. rewrite Er. reflexivity.
+    + destruct (rej_false n dt Hdt Er) as (Hn0 & Hb).
       destruct (geth (hs ms) sidx) as [sm |] eqn:Es; cbn [option_map] in EH.
       * destruct (Z.leb_spec (n * dt) (msize sm)) as [Hle | Hgt].
         -- destruct (wf_get _ _ _ Hwf Es) as (Hsm & _).
-           apply (good_alloc_copy ms ss _ d (n * dt) dt sm); auto; try lia.
-           cbn [s_step]. destruct (Z.eqb_spec n 0); [lia |]. destruct (Z.ltb_spec n 0); [lia |].
+           apply (good_alloc_copy ms ss _ d (n * dt) dt sm); auto.
+           cbn [s_step]. change alloc_limit with max_bytes. fold (rej n dt).
+           destruct (Z.eqb_spec n 0); [lia |]. rewrite Er.
            rewrite EH. cbn [m2v vlen vb vlo]. destruct (Z.leb_spec (n * dt) (msize sm)); [reflexivity | lia].
         -- apply (good_intro _ _ _ ms ss ERR); auto.
            ++ apply step_throw. exact Ef.
-           ++ cbn [s_step]. destruct (Z.eqb_spec n 0); [lia |]. destruct (Z.ltb_spec n 0); [lia |].
+           ++ cbn [s_step]. change alloc_limit with max_bytes. fold (rej n dt).
+              destruct (Z.eqb_spec n 0); [lia |]. rewrite Er.
               rewrite EH. cbn [m2v vlen vb vlo]. destruct (Z.leb_spec (n * dt) (msize sm)); [lia | reflexivity].
       * apply (good_alloc_plain ms ss _ d (n * dt) dt false INone (repeat undef (Z.to_nat (n * dt))) (fun _ => undef)); auto.
-        -- lia.
         -- apply zlen_repeat; lia.
         -- intros k Hk. apply nth_repeat_lt. lia.
-        -- cbn [s_step]. destruct (Z.eqb_spec n 0); [lia |]. destruct (Z.ltb_spec n 0); [lia |].
+        -- cbn [s_step]. change alloc_limit with max_bytes. fold (rej n dt).
+           destruct (Z.eqb_spec n 0); [lia |]. rewrite Er.
            rewrite EH. reflexivity.
 Qed.
 
@@ -839,24 +849,27 @@ Theorem frontend_in_range s o p : wf s -> op_ok o -> frontend fixed s o = Ret p 
   plan_in_range (parent_of s o) p.
 Proof.
   intros Hwf Hok E. destruct o; cbn [op_ok] in Hok; cbn [frontend parent_of] in *.
-  - (* OMalloc *) destruct Hok as (Hn & Hdt). pose proof (small_prod n dt Hn Hdt).
-    rewrite device_malloc_bytes_char in E by assumption.
+  - (* OMalloc *) destruct Hok as (Hn & Hdt).
+    rewrite device_malloc_bytes_char in E by assumption. fold (rej n dt) in E.
     destruct (Z.eqb_spec n 0); [apply ret_inj in E; subst p; exact I |].
-    destruct (Z.ltb_spec n 0); [discriminate |]. apply ret_inj in E; subst p. cbn. unfold dt_ok in Hdt. nia.
-  - (* OMallocH *) destruct Hok as (Hn & Hdt). pose proof (small_prod n dt Hn Hdt).
-    rewrite device_malloc_bytes_char in E by assumption.
+    destruct (rej n dt) eqn:Er; [discriminate |]. apply ret_inj in E; subst p. cbn.
+    apply (rej_false n dt Hdt Er).
+  - (* OMallocH *) destruct Hok as (Hn & Hdt).
+    rewrite device_malloc_bytes_char in E by assumption. fold (rej n dt) in E.
     destruct (Z.eqb_spec n 0); [apply ret_inj in E; subst p; exact I |].
-    destruct (Z.ltb_spec n 0); [discriminate |]. apply ret_inj in E; subst p. cbn. unfold dt_ok in Hdt. nia.
-  - (* OMallocM *) destruct Hok as (Hn & Hdt). pose proof (small_prod n dt Hn Hdt).
-    rewrite device_mallocM_char in E; auto; [| intros sm Es; apply (wf_get _ _ _ Hwf Es)].
+    destruct (rej n dt) eqn:Er; [discriminate |]. apply ret_inj in E; subst p. cbn.
+    apply (rej_false n dt Hdt Er).
+  - (* OMallocM *) destruct Hok as (Hn & Hdt).
+    rewrite device_mallocM_char in E; auto; [| intros sm Es; apply (wf_get _ _ _ Hwf Es)]. fold (rej n dt) in E.
     destruct (Z.eqb_spec n 0); [apply ret_inj in E; subst p; exact I |].
-    destruct (Z.ltb_spec n 0); [discriminate |].
-    assert (0 <= n * dt) by (unfold dt_ok in Hdt; nia).
+    destruct (rej n dt) eqn:Er; [discriminate |].
+    destruct (rej_false n dt Hdt Er) as (Hn0 & Hb).
     destruct (geth (hs s) s0) as [sm |]; [| apply ret_inj in E; subst p; cbn; lia].
     destruct (Z.leb_spec (n * dt) (msize sm)); [| discriminate].
     apply ret_inj in E; subst p. cbn. unfold within. lia.
-  - (* OWrap *) destruct Hok as (Hn & Hdt). rewrite device_wrap_char in E by assumption.
-    destruct (Z.ltb_spec n 0); [discriminate |]. apply ret_inj in E; subst p. cbn. unfold dt_ok in Hdt. nia.
+  - (* OWrap *) destruct Hok as (Hn & Hdt). rewrite device_wrap_char in E by assumption. fold (rej n dt) in E.
+    destruct (rej n dt) eqn:Er; [discriminate |]. apply ret_inj in E; subst p. cbn.
+    apply (rej_false n dt Hdt Er).
   - (* OSlice *) destruct Hok as (Hoff & Hcnt).
     destruct (geth (hs s) s0) as [m |] eqn:Em; [| discriminate].
     destruct (wf_get _ _ _ Hwf Em) as (Hm & Hmm).
